@@ -7,8 +7,10 @@ and occurs in no statement (and conversely); an unused specialisation reported f
 definition for S whose name occurs in no statement (and conversely); every set lists a name once.
 `warn_unused_eq`: for every grammar and shell the model of check.rs accepts, the names in its `unused`
 map are exactly `unusedNames` (proved through the model's specialise / resolve passes,
-`Proofs/Warn.lean`).  The same equality for the other two sets is checked per grammar by the run
-(model = library exactly, library/binary = spec).
+`Proofs/Warn.lean`); `warn_unused_spec_eq`: likewise its `unusedSpecs` are exactly
+`unusedSpecNames sh`.  The same equality for the undefined names needs the expansion of definitions
+(dependency order) and is checked per grammar by the run (model = library exactly, library/binary =
+spec).
 -/
 import Complgen.Spec.Warn
 import Complgen.Proofs.Warn
@@ -110,5 +112,15 @@ theorem warn_unused_eq (g : Grammar) (sh : Shell) (v : Check.Valid) (h : Check.v
 theorem warn_unused_iff (g : Grammar) (sh : Shell) (v : Check.Valid) (h : Check.validate g sh = .ok v) (n : String) :
     n ∈ v.unused.map (·.1) ↔ (∃ sp e, Stmt.defn n sp none e ∈ g) ∧ n ∉ referred g :=
   (warn_unused_eq g sh v h n).trans (unused_iff g n)
+
+/-- **The specialisations the model warns about as unused are what the specification says.** -/
+theorem warn_unused_spec_eq (g : Grammar) (sh : Shell) (v : Check.Valid) (h : Check.validate g sh = .ok v) (n : String) :
+    n ∈ v.unusedSpecs.map (·.1) ↔ n ∈ unusedSpecNames sh g :=
+  Check.validate_unusedSpecs_eq g sh v h n
+
+theorem warn_unused_spec_iff (g : Grammar) (sh : Shell) (v : Check.Valid) (h : Check.validate g sh = .ok v) (n : String) :
+    n ∈ v.unusedSpecs.map (·.1) ↔
+      (∃ sp ss e, Stmt.defn n sp (some (sh.name, ss)) e ∈ g) ∧ n ∉ referred g :=
+  (warn_unused_spec_eq g sh v h n).trans (unused_spec_iff sh g n)
 
 end Complgen.Props.C15
